@@ -248,7 +248,7 @@ var (
 			`))*"`,
 		LITSTRING,
 	)
-	tokFloatRule = regexpRule(`^-?\d+(:?(?:\.\d+)?[eE][+-]?|\.)\d+\b`, NUM_FLOAT)
+	tokFloatRule = regexpRule(`^-?\d+(?:(?:\.\d+)?[eE][+-]?|\.)\d+\b`, NUM_FLOAT)
 	tokIntRule   = regexpRule(`^-?0*\d{1,19}\b`, NUM_INT)
 
 	// Identifiers for filetypes, stages, etc.
